@@ -468,6 +468,10 @@ func (x *c24ctx) apply(l *c24live, op c24op, check bool) string {
 	panicked, pmsg := engine.Catch(func() {
 		switch op.K {
 		case "pending":
+			if l.dm != nil {
+				rerr = daemon.VerifConnectToPeer(l.dm, op.A) // the daemon's outgoing attempt (reserves the record, dials in the background)
+				break
+			}
 			rconn, rerr = daemon.VerifPending(l.c, op.A)
 		case "connected":
 			if l.dm != nil {
@@ -489,6 +493,20 @@ func (x *c24ctx) apply(l *c24live, op c24op, check bool) string {
 	var rej []string
 	switch op.K {
 	case "pending":
+		if l.dm != nil {
+			// an outgoing attempt through the daemon is refused - and must leave no trace - when the address is already held or
+			// another connection of the same base IP exists; otherwise it is the pending event
+			ip := strings.Split(op.A, ":")[0]
+			for a := range l.m.Live {
+				if strings.Split(a, ":")[0] == ip {
+					rej = []string{"refused-by-daemon"}
+				}
+			}
+			if len(rej) == 0 {
+				rej = l.m.Pending(op.A)
+			}
+			break
+		}
 		rej = l.m.Pending(op.A)
 	case "connected":
 		rej = l.m.Connected(op.A, id)
@@ -511,7 +529,7 @@ func (x *c24ctx) apply(l *c24live, op c24op, check bool) string {
 	}
 	// the daemon's handlers return nothing: for events delivered through them the verdict is taken from the model and only the
 	// resulting maps (and getters) are judged
-	blind := l.dm != nil && (op.K == "connected" || op.K == "remove")
+	blind := l.dm != nil && (op.K == "connected" || op.K == "remove" || op.K == "pending")
 	if blind && !panicked && len(rej) > 0 {
 		rerr = errors.New(rej[0])
 	}
